@@ -4,10 +4,20 @@
     //
     // Scenario (the one the test-suite never reaches): the gadget has GROWN from coupons (List -> Array8 at the 8th distinct coupon because
     // lg_k < 8), so it is an IN-ORDER Array8 whose HIP accumulator is live; then an ARRAY-mode sketch of the same lg_k is merged.
-    // The source sketch is the promotion of 8 concrete coupons followed by two coupons with a symbolic value 0..=63 at the fixed slots 2 (gadget register 7) and
-    // 10 (gadget register 0).
+    // Both operands are the promotion of 8 concrete coupons followed by two coupons with a symbolic 6-bit value at fixed slots
+    // (gadget: slots 1 and 14, source: slots 2 and 10).  Sources: Hll6 (Array6) and Hll8 (Array8); an Hll4 source is not tractable (below).
     //   C03.max   every result register == max(gadget register before, source register)
     //   C03.ooo   the merged result is flagged out-of-order (observed in the serialized image, flags byte bit 4, and the image's lg_k/mode)
+    // ABSTRACTION (measured: without it CBMC needs > 15 min / runs out of memory even for concrete operands, because every arm of every
+    // `match` on `Mode` inside HllUnion::update is explored and each explored copy of the kxq recomputation carries 16 f64 divisions with
+    // NaN / overflow checks): the two pure f64 book-keeping routines are stubbed out -
+    //   HipEstimator::update            (hip_accum, kxq0, kxq1 only; never the out-of-order flag)
+    //   Array8::rebuild_cached_values   (num_zeros, kxq0, kxq1 only; never the registers or the flag)
+    // so the harnesses speak about REGISTERS and the OUT-OF-ORDER FLAG only (the float side is covered by the VX units hll_array8 /
+    // hll_union and the complete Kani harnesses c01_hll_hip_update_contract, shim_rebuild_cached_values_lgk4).
+    pub fn hip_update_stub(_e: &mut crate::hll::estimator::HipEstimator, _lg_config_k: u8, _old_value: u8, _new_value: u8) {}
+    pub fn rebuild_cached_values_stub(_a: &mut Array8) {}
+
     pub const GADGET_COUPONS: [u32; 8] = [
         (3 << 26) | 0, (1 << 26) | 1, (7 << 26) | 2, (2 << 26) | 5, (12 << 26) | 7, (1 << 26) | 9, (33 << 26) | 12, (5 << 26) | 15,
     ];
@@ -18,19 +28,18 @@
     // `Mode` discriminant, so even for concrete coupons it unwinds the Array4 promotion (AuxMap::grow, shift_to_bigger_cur_min) at every
     // call.  The two operands are therefore built exactly as promote_container_to_array builds them (Array::new + update per coupon:
     // an IN-ORDER array) and wrapped with HllSketch::from_mode; the merge itself runs through HllUnion::update.
-    pub fn grown_gadget() -> HllUnion {
+    pub fn grown_gadget(c1: u32, c2: u32) -> HllUnion {
         let mut g = Array8::new(4);
         let mut i = 0;
         while i < 8 { g.update(GADGET_COUPONS[i]); i += 1; }
+        g.update(c1); g.update(c2);
         HllUnion { lg_max_k: 4, gadget: HllSketch::from_mode(4, Mode::Array8(g)) }
     }
-    pub fn array_source(t: HllType, c1: u32, c2: u32) -> HllSketch {
-        match t {
-            HllType::Hll4 => { let mut a = Array4::new(4); let mut i = 0; while i < 8 { a.update(SOURCE_COUPONS[i]); i += 1; } a.update(c1); a.update(c2); HllSketch::from_mode(4, Mode::Array4(a)) }
-            HllType::Hll6 => { let mut a = Array6::new(4); let mut i = 0; while i < 8 { a.update(SOURCE_COUPONS[i]); i += 1; } a.update(c1); a.update(c2); HllSketch::from_mode(4, Mode::Array6(a)) }
-            HllType::Hll8 => { let mut a = Array8::new(4); let mut i = 0; while i < 8 { a.update(SOURCE_COUPONS[i]); i += 1; } a.update(c1); a.update(c2); HllSketch::from_mode(4, Mode::Array8(a)) }
-        }
-    }
+    // (one builder per type, no `match` on the type: CBMC explores every arm of a match on an enum and merges the results, which makes
+    // the whole source sketch non-constant)
+    pub fn source4(c1: u32, c2: u32) -> HllSketch { let mut a = Array4::new(4); let mut i = 0; while i < 8 { a.update(SOURCE_COUPONS[i]); i += 1; } a.update(c1); a.update(c2); HllSketch::from_mode(4, Mode::Array4(a)) }
+    pub fn source6(c1: u32, c2: u32) -> HllSketch { let mut a = Array6::new(4); let mut i = 0; while i < 8 { a.update(SOURCE_COUPONS[i]); i += 1; } a.update(c1); a.update(c2); HllSketch::from_mode(4, Mode::Array6(a)) }
+    pub fn source8(c1: u32, c2: u32) -> HllSketch { let mut a = Array8::new(4); let mut i = 0; while i < 8 { a.update(SOURCE_COUPONS[i]); i += 1; } a.update(c1); a.update(c2); HllSketch::from_mode(4, Mode::Array8(a)) }
     pub fn reg(s: &HllSketch, slot: u32) -> u8 {
         match s.mode() {
             Mode::Array4(a) => a.get(slot),
@@ -46,11 +55,9 @@
             _ => { assert!(false, "the gadget is an Array8"); 0 }
         }
     }
-    pub fn body_merge_into_grown(t: HllType, c1: u32, c2: u32, q: u32) {
-        let mut u = grown_gadget();
+    pub fn body_merge_into_grown(mut u: HllUnion, s: HllSketch, q: u32) {
         // a gadget grown from coupons is in order
         assert!(gadget_flags(&u) & OUT_OF_ORDER_FLAG == 0);
-        let s = array_source(t, c1, c2);
         let before = reg(&u.gadget, q);
         let src = reg(&s, q);
         u.update(&s);
@@ -66,27 +73,27 @@
 
     #[kani::proof]
     #[kani::unwind(18)]
+    #[kani::stub(crate::hll::estimator::HipEstimator::update, hip_update_stub)]
+    #[kani::stub(crate::hll::array8::Array8::rebuild_cached_values, rebuild_cached_values_stub)]
     fn w1_union_hll6_into_grown_gadget() {
         let q: u32 = kani::any(); kani::assume(q < 16);
-        body_merge_into_grown(HllType::Hll6, sym_coupon(2), sym_coupon(10), q);
+        body_merge_into_grown(grown_gadget(sym_coupon(1), sym_coupon(14)), source6(sym_coupon(2), sym_coupon(10)), q);
     }
+    // [not tractable: an Hll4 (Array4) source - even a concrete one - makes CBMC unwind AuxMap::grow / shift_to_bigger_cur_min in the arms
+    //  of HllUnion::update that reinterpret the source as a List/Set (every arm of a match on Mode is explored): no verdict in 10 min.
+    //  body_merge_into_grown(grown_gadget(sym_coupon(2), sym_coupon(14)), source4(0, 0), q) is the body to use once that is affordable.]
     #[kani::proof]
     #[kani::unwind(18)]
-    fn w1_union_hll4_into_grown_gadget() {
-        let q: u32 = kani::any(); kani::assume(q < 16);
-        body_merge_into_grown(HllType::Hll4, sym_coupon(2), sym_coupon(10), q);
-    }
-    #[kani::proof]
-    #[kani::unwind(18)]
+    #[kani::stub(crate::hll::estimator::HipEstimator::update, hip_update_stub)]
+    #[kani::stub(crate::hll::array8::Array8::rebuild_cached_values, rebuild_cached_values_stub)]
     fn w1_union_hll8_into_grown_gadget() {
         let q: u32 = kani::any(); kani::assume(q < 16);
-        body_merge_into_grown(HllType::Hll8, sym_coupon(2), sym_coupon(10), q);
+        body_merge_into_grown(grown_gadget(sym_coupon(1), sym_coupon(14)), source8(sym_coupon(2), sym_coupon(10)), q);
     }
 
     // the first array input is copied into an EMPTY union: registers equal the source's, result flagged out-of-order
-    pub fn body_copy_into_empty(t: HllType, c1: u32, c2: u32, q: u32) {
+    pub fn body_copy_into_empty(s: HllSketch, q: u32) {
         let mut u = HllUnion::new(4);
-        let s = array_source(t, c1, c2);
         let src = reg(&s, q);
         u.update(&s);
         assert!(reg(&u.gadget, q) == src, "C03.max union with the empty set");
@@ -94,7 +101,9 @@
     }
     #[kani::proof]
     #[kani::unwind(18)]
+    #[kani::stub(crate::hll::estimator::HipEstimator::update, hip_update_stub)]
+    #[kani::stub(crate::hll::array8::Array8::rebuild_cached_values, rebuild_cached_values_stub)]
     fn w1_union_hll6_into_empty() {
         let q: u32 = kani::any(); kani::assume(q < 16);
-        body_copy_into_empty(HllType::Hll6, sym_coupon(2), sym_coupon(10), q);
+        body_copy_into_empty(source6(sym_coupon(2), sym_coupon(10)), q);
     }
